@@ -86,6 +86,40 @@ def option_runs(ctx):
             ctx.violation(WHAT, dict(case, internal=r["internal"][:3]))
 
 
+def _lint_only(item):
+    import logging
+    logging.disable(logging.CRITICAL)
+    from sqlfluff.core import Linter
+    from vlib import corpus, fixrun
+    out = {"internal": [], "raised": None}
+    try:
+        name, sql, jctx = corpus.load(item)
+        lf = Linter(config=fixrun.make_config(item[1], "all", jctx)).lint_string(sql)
+        out["internal"] = ["%s: %s" % (v.rule_code(), v.desc()[:160]) for v in lf.violations if v.desc().startswith("Unexpected exception")]
+        out["sql"] = sql[:1500]
+    except BaseException as e:  # noqa
+        out["raised"] = "%s: %s" % (type(e).__name__, str(e)[:160])
+    finally:
+        if hasattr(sys, "tracebacklimit"):
+            del sys.tracebacklimit
+    return out
+
+
+def lint_slice(ctx):
+    """A second, larger seed-chosen slice of the universe in lint mode only (about four times cheaper than a fix run)."""
+    from vlib import corpus
+    from vlib.par import robust_map
+    items = [i for i in corpus.full_universe(("all",)) if i[0] in ("fixture", "mutant")]
+    items = fixchecks.slice_of(ctx, items, 700)
+    res = robust_map(_lint_only, items, 14, 200)
+    for it, r in zip(items, res):
+        name = corpus.name_of(it)
+        ctx.count((name, "lint"), nontrivial=True)
+        ctx.bump("lint_only_items")
+        if r.get("internal"):
+            ctx.violation(WHAT, {"input": name, "dialect": it[1], "ruleset": "all", "sql": r.get("sql"), "internal": r["internal"][:3]}, key=fixchecks.key_for(name, "all", PROP))
+
+
 def run(ctx, prove=True):
     import c04
     ctx.rule = ("all rules in fix mode over the fixed universe slice (fixtures, seeded mutants, generated SQL, jinja templates) + shuffled fixtures/mutants/generated SQL under two "
@@ -95,6 +129,8 @@ def run(ctx, prove=True):
     ctx.partial += ["the ~70 rule implementations are not modelled: 'no _eval raises' is sampled, the theorem only reduces the property to it"]
     c04.funnel_correspondence(ctx)
     option_runs(ctx)
+    if ctx.tier == "quick":
+        lint_slice(ctx)
     fixchecks.run_universe(ctx, PROP, ["all", "layout_alt", "cap_snake", "cap_camel"], ctx.budget(120, 10 ** 9), WHAT)
 
 
